@@ -407,6 +407,8 @@ def run(repo: Repo, rep):
     from .generic import g_arg_constructor_parameters
     g_arg_constructor_parameters(repo, rep, lambda m: m.endswith(".FNO"), floor=2,
                                  why="a Fourier layer that ignores mode counts / channels is not the configured operator")
+    from .c08 import r2_fix_points_order  # an FNO receives (batch, grid.., channels) points through the common sanitiser: re-ordering the variables must address the LAST axis - on a spatial axis it permutes grid nodes and equivariance is gone
+    r2_fix_points_order(repo, rep)
     r1_no_input_write(repo, rep)
     r2_r3_spectrum(repo, rep)
     r4_fno_structure(repo, rep)
